@@ -33,6 +33,11 @@ def _is_set_ann(ann: ast.AST | None) -> bool:
     return (dotted_name(base) or "").split(".")[-1] in ("set", "Set", "frozenset", "FrozenSet", "AbstractSet")
 
 
+# attributes of libcst objects that are sets (libcst.codemod.visitors.GatherUnusedImportsVisitor.unused_imports: Set[Tuple[ImportAlias, Import | ImportFrom]];
+# libcst.metadata.BaseAssignment.references, Scope.accesses / .assignments: sets of Access / BaseAssignment)
+LIBCST_SET_ATTRS = {"unused_imports", "references", "accesses", "assignments"}
+
+
 def _int_elements(fn: FuncInfo, r, e: ast.expr) -> bool:
     """is `e` a name annotated (parameter or annotated assignment in this function) as a collection of int?"""
     if not isinstance(e, ast.Name):
@@ -68,6 +73,8 @@ def unordered_source(ctx, fn: FuncInfo, e: ast.expr, depth: int = 3) -> ast.expr
             for c in ctx.prog.mro_classes(t):
                 if e.attr in c.ann:
                     return e if _is_set_ann(c.ann[e.attr]) else None
+        if e.attr in LIBCST_SET_ATTRS and not (t and t in ctx.prog.classes):
+            return e  # documented libcst API: a set of nodes / accesses (identity-hashed: iteration in address order)
         return None
     if isinstance(e, ast.Call):
         q = r.callee_qname(e) if dotted_name(e.func) else None
@@ -532,6 +539,9 @@ def partial_key_sorts(ctx, fn: FuncInfo):
         pm = {id(c): par for par in ast.walk(keyfn.body) for c in ast.iter_child_nodes(par)}
         if not uses:
             return False
+        # a key that is the source *position* of a node (PositionProvider metadata) is injective over distinct nodes: no ties to keep hash order
+        if any(isinstance(c, ast.Call) and (last_attr(c.func) or "") in ("get_metadata", "node_position", "lineno_for_node") for c in ast.walk(keyfn.body)):
+            return False
         proj = set()
         for u in uses:
             par = pm.get(id(u))
@@ -569,6 +579,20 @@ def partial_key_sorts(ctx, fn: FuncInfo):
     return out
 
 
+REPORTING_CALLS = {"add_change", "add_change_from_position", "report_change", "report_change_for_line", "report_unfixed", "add_unfixed_findings", "add_dependency", "add_changeset"}
+
+
+def _reports_in_iteration_order(node: ast.AST) -> bool:
+    """does the body of this loop record change entries / findings (whose order in the report is then the iteration order)?"""
+    if not isinstance(node, (ast.For, ast.AsyncFor)):
+        return False
+    for st in node.body:
+        for c in ast.walk(st):
+            if isinstance(c, ast.Call) and ((last_attr(c.func) or "") in REPORTING_CALLS or (last_attr(c.func) == "append" and isinstance(c.func, ast.Attribute) and last_attr(c.func.value) == "codemod_changes")):
+                return True
+    return False
+
+
 def rule_no_unordered_iter(ctx, rep):
     rep.rule(
         "R-NO-UNORDERED-ITER",
@@ -585,9 +609,12 @@ def rule_no_unordered_iter(ctx, rep):
 
             stp = unparse_positional(fn, src)  # parameters by position: the table does not depend on what they are called
             ex = next((why for (q, pre), why in UNORDERED_OK.items() if q == fn.qname and (st.startswith(pre) or stp.startswith(pre))), None)
-            if ex is None and fn.qname.startswith(("codemodder.codemods.utils_mixin.", "codemodder.codemods.transformations.", "core_codemods.", "codemodder.utils.", "codemodder.codemods.utils.")):
-                # sets of CST nodes / scopes inside transformers are identity-hashed (not seed dependent) and per file;
-                # they are judged by C08/C16 rules on the emitted code, not here
+            if ex is None and fn.qname.startswith(("codemodder.codemods.utils_mixin.", "codemodder.codemods.transformations.", "core_codemods.", "codemodder.utils.", "codemodder.codemods.utils.")) \
+                    and not _reports_in_iteration_order(node):
+                # sets of CST nodes / scopes inside transformers are identity-hashed: their order is the order of memory addresses -- not seed
+                # dependent, but not reproducible either.  That is harmless while the loop only decides (membership, any / all, building
+                # another set) and is judged by C08/C16 rules on the emitted code; it is *not* harmless when the loop body records change
+                # entries, because the report then lists them in address order (see _reports_in_iteration_order)
                 rep.instance("R-NO-UNORDERED-ITER", fn.qname, fn.loc(node), True, detail=f"{kind}:{st[:40]}", exempt="identity-hashed CST-node/scope sets inside a transformer")
                 continue
             rep.check("R-NO-UNORDERED-ITER", fn.qname, fn.loc(node), ex is not None, f"{kind}:{st[:40]}",
